@@ -6,6 +6,7 @@ calls of an epoch are issued from 2-3 simulated threads with different scope
 stacks (the store is quiescent meanwhile), so that "the currently active scope"
 is the calling thread's.
 """
+import contextlib
 import copy
 import random
 
@@ -64,6 +65,17 @@ def gen(rng, tier, allow_required=False, mod_id='C01'):
     s = cm.gen_spec(rng, 'q%d' % i, allow_required=allow_required, kinds=KINDS,
                     lists=allow_required, module='mm.s%d' % (i % 2))
     specs.append(s)
+  if allow_required and rng.random() < 0.3:
+    # a registered method of a registered class (selector `Class.method`)
+    i = len(specs)
+    s = cm.gen_spec(rng, 'q%d' % i, allow_required=True, kinds=('regmethod',),
+                    lists=False, module='mm.s%d' % (i % 2))
+    s['api'] = 'register'
+    specs.append(s)
+  if rng.random() < 0.3:
+    cands = [s for s in specs if cm.alias_eligible(s)]
+    if cands:
+      specs.append(cm.gen_alias(rng, rng.choice(cands), 'q%d' % len(specs)))
   model = cm.Model(specs)
   uid = [0]
   ops = []
@@ -87,7 +99,9 @@ def gen(rng, tier, allow_required=False, mod_id='C01'):
       param = rng.choice(cand)
       val = _bound_value(rng, uid)
       parts = full.split('.')
-      sel = '.'.join(parts[rng.randint(0, len(parts) - 1):])
+      # a method is addressed at least as `Class.method`
+      last = len(parts) - (2 if spec['kind'] == 'regmethod' else 1)
+      sel = '.'.join(parts[rng.randint(0, last):])
       ops.append({'op': 'bind', 'scope': '/'.join(sc), 'full': full, 'sel': sel,
                   'param': param, 'val': val,
                   'api': rng.choice(['str', 'tuple', 'parse'])})
@@ -101,6 +115,11 @@ def gen(rng, tier, allow_required=False, mod_id='C01'):
                            if rng.random() < 0.3 else [])
       via = rng.choice(['direct', 'direct', 'getcfg_obj', 'getcfg_name',
                         'getcfg_scoped'])
+      if spec['kind'] == 'regmethod':
+        via = 'direct'
+      elif via == 'getcfg_obj' and (spec.get('alias_of') or any(
+          o.get('alias_of') == spec['name'] for o in specs)):
+        via = 'getcfg_name'   # one object, two registrations: ambiguous by object
       ambient = sc
       if via == 'getcfg_scoped':
         if not sc:
@@ -116,14 +135,17 @@ def gen(rng, tier, allow_required=False, mod_id='C01'):
       ops.append({'op': 'call', 'probe': spec['name'], 'scope': sc,
                   'ambient': ambient, 'pos': pos, 'kw': kw, 'via': via,
                   'noise': rng.choice([None, None, None, 'invalid_scope',
-                                       'nested_ok'])})
+                                       'nested_ok', 'prebuilt_last'])})
     elif r < 0.9:
       sc = _scope(rng)
       if scopes_used and rng.random() < 0.7:
         sc = list(rng.choice(scopes_used))
+      by = rng.choice(['name', 'obj', 'scoped_name'])
+      if by == 'obj' and (spec.get('alias_of') or spec['kind'] == 'regmethod' or
+                          any(o.get('alias_of') == spec['name'] for o in specs)):
+        by = 'name'
       ops.append({'op': 'get_bindings', 'probe': spec['name'], 'scope': sc,
-                  'strict': rng.random() < 0.4,
-                  'by': rng.choice(['name', 'obj', 'scoped_name'])})
+                  'strict': rng.random() < 0.4, 'by': by})
     else:
       ops.append({'op': 'query'})
   case = {'specs': specs, 'ops': ops}
@@ -184,8 +206,33 @@ class World:
         self.raise_next = None
         raise RuntimeError('injected body fault')
       return 'ret-' + name
+    self.hookname = {}
     for s in specs:
       spec = dict(s)
+      self.hookname[s['name']] = s.get('alias_of') or s['name']
+      if s.get('alias_of'):
+        obj = self.originals[s['alias_of']]
+        kw = {}
+        if s.get('allow'):
+          kw['allowlist'] = list(s['allow'])
+        if s.get('deny'):
+          kw['denylist'] = list(s['deny'])
+        self.objs[s['name']] = gin.external_configurable(
+            obj, name=s['name'], module=s.get('module'), **kw)
+        self.originals[s['name']] = obj
+        continue
+      if s['kind'] == 'regmethod':
+        fn_spec = dict(s, kind='fn',
+                       params=[{'n': 'self', 'k': 'pos'}] + list(s['params']))
+        fn, _ = probes.compile_probe(fn_spec, hook)
+        holder = type('H_' + s['name'], (), {'__module__': 'ginsim_probes'})
+        fn.__qualname__ = 'H_%s.%s' % (s['name'], s['name'])
+        setattr(holder, s['name'], gin.register(fn))
+        gin.register(module=s.get('module'))(holder)
+        self.originals[s['name']] = fn
+        self.holders[s['name']] = gin.get_configurable(holder)()
+        self.objs[s['name']] = getattr(type(self.holders[s['name']]), s['name'])
+        continue
       if s['kind'] == 'method':
         spec = dict(s, kind='fn',
                     params=[{'n': 'self', 'k': 'pos'}] + list(s['params']))
@@ -222,7 +269,16 @@ class World:
     exc = None
     try:
       scope_ctx = op['ambient'] if via == 'getcfg_scoped' else op['scope']
-      with gin.config_scope(list(scope_ctx) if scope_ctx else None):
+      if op.get('noise') == 'prebuilt_last' and scope_ctx:
+        # the innermost component is entered by name through a context manager
+        # that was created while another scope was active
+        with gin.config_scope(['elsewhere']):
+          inner = gin.config_scope(scope_ctx[-1])
+        outer = gin.config_scope(list(scope_ctx[:-1]) or None)
+      else:
+        inner = contextlib.nullcontext()
+        outer = gin.config_scope(list(scope_ctx) if scope_ctx else None)
+      with outer, inner:
         # Scope activity that must leave the active scope as it was.
         if op.get('noise') == 'invalid_scope':
           try:
@@ -242,7 +298,7 @@ class World:
           callee = gin.get_configurable(full)
         else:
           callee = gin.get_configurable('/'.join(op['scope']) + '/' + full)
-        if s['kind'] == 'method':
+        if s['kind'] in ('method', 'regmethod'):
           callee(self.holders[s['name']], *args, **kwargs)
         else:
           callee(*args, **kwargs)
@@ -250,7 +306,7 @@ class World:
       exc = e
     # gin may have called other probes (producers) first: the record of this
     # call is the newest one made by the probe itself.
-    mine = [r for r in self.calls[n0:] if r[0] == op['probe']]
+    mine = [r for r in self.calls[n0:] if r[0] == self.hookname[op['probe']]]
     rec = mine[-1] if mine else None
     del self.calls[n0:]
     return exc, rec
@@ -283,7 +339,7 @@ def check_call(v, op, exp, exc, rec, toks, prefix='C01'):
         v(prefix + '.error_names_missing', [],
           '%s: error text %r does not list exactly %s in signature order' %
           (what, msg[:300], want))
-      elif ('`%s`' % op['probe']) not in msg:
+      elif ('`%s`' % op.get('display', op['probe'])) not in msg:
         v(prefix + '.error_names_configurable', [],
           '%s: error text %r does not name the configurable' % (what, msg))
     return
@@ -371,6 +427,7 @@ def execute(case, allow_required=False, prefix='C01'):
       exp = model.expect_call(cm.full_name(spec), op['scope'], op['pos'],
                               op['kw'])
       toks = {}
+      op = dict(op, display=cm.display_name(spec))
       exc, rec = w.invoke(op, toks)
       stats['calls'] += 1
       if exp['status'] == 'error':
@@ -454,7 +511,7 @@ def execute(case, allow_required=False, prefix='C01'):
       before = len(w_.by_tid.get(world.CURRENT_SCHED.thread_state().tid, []))
       try:
         with gin_.config_scope(list(op['scope']) if op['scope'] else None):
-          if spec['kind'] == 'method':
+          if spec['kind'] in ('method', 'regmethod'):
             w_.objs[op['probe']](w_.holders[spec['name']], *args, **kwargs)
           else:
             w_.objs[op['probe']](*args, **kwargs)
